@@ -6,6 +6,8 @@
      ev k s       a datagram with event line k from sender address s         evhttp k    the event of line k POSTed to /v2/event
      known s r    the instance cache learns s beforehand (r = pos | neg)     take / answer r   the lookup service, as in CloudSched
      hold b / release b   backend b's SendEvent blocks (it honours its context) / continues
+     upfail       (forwarder) the upstream answers the next event POST with 503 after it has read the body; the forwarder retries
+   cfg.ih: the parser runs with ignore-host (which concerns metrics: an event keeps its sender address and its host: tag)
      wait         WaitForEvents is called (it returns when it returns) *)
 EXTENDS Grammar, TLC, Json
 CONSTANTS MaxLen
@@ -15,22 +17,28 @@ Lines == <<
   <<"_", "e", "{", "2", ",", "3", "}", ":", "a", "b", "|", "c", Esc, "|", "d", ":", "1", "2", "3", "|", "h", ":", "h", "h", "|", "k", ":", "k",
     "|", "p", ":", "low", "|", "s", ":", "s", "s", "|", "t", ":", "error", "|", "#", "a", ":", "b", ",", "c">>,
   <<"_", "e", "{", "1", ",", "0", "}", ":", "|", "|", "|", "t", ":", "warning", "|", "#", "b">>,
-  <<"_", "e", "{", "0", ",", "2", "}", ":", "|", Esc, "|", "p", ":", "normal", "|", "t", ":", "success">>
+  <<"_", "e", "{", "0", ",", "2", "}", ":", "|", Esc, "|", "p", ":", "normal", "|", "t", ":", "success">>,
+  <<"_", "e", "{", "1", ",", "1", "}", ":", "a", "|", "b", "|", "#", "h", "o", "s", "t", ":", "w", ",", "a", ":", "b">>       \* an event with a host: tag
 >>
 ASSUME \A i \in 1..Len(Lines) : PLine(Lines[i]).k = "event"
-Cfgs == {[mode |-> "standalone", b |-> b, tokens |-> t] : b \in {0, 1, 2}, t \in {1, 2}} \cup {[mode |-> "forwarder", b |-> 1, tokens |-> 1]}
+Cfgs == {[mode |-> "standalone", b |-> b, tokens |-> t, ih |-> ih] : b \in {0, 1, 2}, t \in {1, 2}, ih \in BOOLEAN}
+        \cup {[mode |-> "forwarder", b |-> 1, tokens |-> 1, ih |-> FALSE]}
 O(op, k, s) == [op |-> op, k |-> k, s |-> s]
-Ops(c) == IF c.mode = "forwarder" THEN {O("evhttp", k, "") : k \in 1..Len(Lines)} \cup {O("wait", 0, "")}
-          ELSE {O("ev", k, s) : k \in {1, 2}, s \in {"x", "y"}} \cup {O("ev", 3, "x"), O("ev", 4, "y"), O("evhttp", 2, "")} \cup
+Ops(c) == IF c.mode = "forwarder" THEN {O("evhttp", k, "") : k \in 1..Len(Lines)} \cup {O("wait", 0, ""), O("upfail", 0, "")}
+          ELSE {O("ev", k, s) : k \in {1, 2}, s \in {"x", "y"}} \cup {O("ev", 3, "x"), O("ev", 4, "y"), O("ev", 5, "x"), O("evhttp", 2, "")} \cup
                {O("known", 0, "x:pos"), O("known", 0, "y:neg"), O("take", 0, ""), O("answer", 0, "pos"), O("answer", 0, "neg"), O("wait", 0, "")} \cup
                {O("hold", b, "") : b \in 1..c.b} \cup {O("release", b, "") : b \in 1..c.b}
 Init == cfg \in Cfgs /\ sched = <<>>
 Next == Len(sched) < MaxLen /\ \E o \in Ops(cfg) : sched' = Append(sched, o) /\ UNCHANGED cfg
 Spec == Init /\ [][Next]_<<cfg, sched>>
 Core == {
-  [cfg |-> [mode |-> "standalone", b |-> 2, tokens |-> 1],
+  [cfg |-> [mode |-> "forwarder", b |-> 1, tokens |-> 1, ih |-> FALSE],
+   sched |-> <<O("upfail", 0, ""), O("evhttp", 2, ""), O("evhttp", 1, ""), O("wait", 0, "")>>],
+  [cfg |-> [mode |-> "standalone", b |-> 1, tokens |-> 1, ih |-> TRUE],
+   sched |-> <<O("ev", 5, "x"), O("take", 0, ""), O("answer", 0, "pos"), O("ev", 5, "x"), O("ev", 1, "y")>>],
+  [cfg |-> [mode |-> "standalone", b |-> 2, tokens |-> 1, ih |-> FALSE],
    sched |-> <<O("ev", 1, "x"), O("ev", 2, "x"), O("wait", 0, ""), O("take", 0, ""), O("hold", 2, ""), O("answer", 0, "pos"), O("ev", 3, "x"), O("release", 2, "")>>],
-  [cfg |-> [mode |-> "standalone", b |-> 2, tokens |-> 2],
+  [cfg |-> [mode |-> "standalone", b |-> 2, tokens |-> 2, ih |-> FALSE],
    sched |-> <<O("known", 0, "x:pos"), O("hold", 1, ""), O("ev", 2, "x"), O("ev", 1, "y"), O("wait", 0, ""), O("take", 0, ""), O("release", 1, ""), O("answer", 0, "neg")>>]
 }
 ASSUME \A c \in Core : PrintT(<<"CASE", ToJson([cfg |-> c.cfg, sched |-> c.sched, lines |-> [i \in 1..Len(Lines) |-> [toks |-> Lines[i], exp |-> PLine(Lines[i])]]])>>)
